@@ -73,6 +73,14 @@ CHECKS = {
                 technique="exhaustive enumeration of add/remove/re-add histories of the name authority, of small models over a colliding name alphabet for NameFixPass, and of all rename_values assignments",
                 text="(a) From three seed graphs (plain, generated-looking input/initializer names) every history up to depth 4 (thorough 5) of adding nodes (two op types x explicit names shaped like generated ones, also of the other op type x explicit/absent output names, via append/constructor/insert_before/extend), removing, re-adding and re-adding after un-naming is executed; every generated node/value name must be new for the graph, explicit names untouched. (b) NameFixPass runs on every model of main graph + If body + model-local function whose values and nodes take names from {None, '', a, a_1, v, v_1} / {None, n, n_1, node}: afterwards all names non-empty, unique per graph and against visible outer values, initializers keyed by name, nothing but names changed, unique names kept, second run reports no modification. (c) rename_values is called with every assignment of <= 3 names (incl. swaps, cycles, duplicates, '', colliding names) to <= 3 of six values (initializers of two graphs, node output, input): applied completely with keys/flags following, or raised with the snapshot unchanged.",
                 note="Registered names are tracked by the harness' own log; visible outer values under the weakest reading."),
+    "C05": dict(level="model_checking", engine="E1-pass", design="4/C05",
+                technique="reachability over the pass-transition system: from every generated checker-valid seed model a BFS over sequences of the 26 built-in pass configurations with de-duplication on the serialised model; independent interpreter of the serialised proto as semantic oracle",
+                text="Seeds are all models of the small-scope grammar (1 and 2 nodes exhaustively over 20+ node forms: arithmetic, unary, Cast, Clip with optional inputs, Dropout with optional output, Split, four Constant forms, If with six then/else body templates capturing outer values incl. body initializers, calls into nested and nested model-local functions with given/default/absent attribute parameters and a function-only opset domain), every input wiring and output choice, duplicate initializers, plus targeted families (mirrored/duplicate operators over shared operands, the same seed at opset 21 and 13 back to back through the same pass objects, BatchNormalization in training mode, identity chains). After every pass application: outputs equal the seed's outputs position by position on 8 input tuples, number of outputs and non-initializer inputs unchanged, onnx.checker (full check when the seed passes it) still accepts, link invariant holds.",
+                note="Semantic oracle mc/evalproto.py (own interpreter with literal ONNX scoping, function attribute binding and defaults), validated against onnx.reference and onnxruntime; quick: pass sequences of length 2 on 1-node seeds, length 1 elsewhere; thorough: 3 / 2."),
+    "C14": dict(level="model_checking", engine="E1-pass", design="4/C14",
+                technique="same pass-transition system as C05 with the contract oracle per transition, iterated application to the fixpoint, and fault injection at the ONNX C-API boundary for the analysis passes",
+                text="Per transition: the in-place/functional identity rule, modified=False implies byte-identical serialisation, link invariant, topologically ordered graphs stay ordered, still serialisable, consumed values and graph outputs keep their names, repeated application reports no modification within |nodes|+|initializers|+8 rounds and then changes nothing. CheckerPass and ShapeInferencePass (two configurations each) run on models whose initializers lack type/shape, mix large and small tensors, or contain a LazyTensor that raises, with the underlying onnx call replaced by a raising callable or not: whenever the pass validates only, raises, or reports modified=False the complete public snapshot, initializer order and graph inputs must be unchanged.",
+                note="Pass objects are reused across models inside a worker (state must not leak between models)."),
 }
 
 NOT_YET = {}
@@ -120,6 +128,8 @@ def main():
              "kind_free_text": "file-system effect interception + exhaustive fault/crash/torn-write plans"},
             {"name": "E1-edit", "path": "mc/props/c13.py", "serves_properties": ["C03", "C13"],
              "kind_free_text": "state x single-edit enumeration with snapshot comparison"},
+            {"name": "E1-pass", "path": "mc/props/_passes.py", "serves_properties": ["C05", "C14"],
+             "kind_free_text": "BFS over the pass-transition system from generated seed models; semantic oracle mc/evalproto.py; generator mc/gen_graphs.py"},
             {"name": "E4-sched", "path": "mc/sched.py", "serves_properties": ["C09"],
              "kind_free_text": "cooperative baton scheduler for real threads + stateless DFS with delay/preemption bounding"},
         ],
